@@ -309,3 +309,56 @@ Theorem C05_gaussian_real_bounds :
     f = [v] /\ F64.is_finite v = true /\ (- IZR (Z.of_nat (length d)) <= B2R v <= 0)%R.
 Proof. exact gaussian_real_bounds. Qed.
 Print Assumptions C05_gaussian_real_bounds.
+
+(* =============================== lexical_cast and the exception path ==========
+   lexical_cast<D_DOUBLE>(value_t) (utility.cc): double -> itself, int ->
+   converted, string -> std::stod (a string cell carries what stod answers on
+   it: a double, or "throws"), empty -> 0.0 (only reachable if the has_value
+   test is skipped: the functors test has_value first). *)
+Theorem C05_lexical_cast_alternatives : forall (d : f64) (z : Z) (s : list Z) (v : f64) (p : pout),
+  lex_double (PDouble d) = d /\ lex_double (PInt z) = F64.of_Z z /\
+  lex_double (PString s (Some v)) = v /\ lex_double PVoid = F64.zero /\
+  (lex_throws p = true <-> exists s', p = PString s' None).
+Proof. exact P_lexical_cast_alternatives. Qed.
+Print Assumptions C05_lexical_cast_alternatives.
+
+(* when no example makes the functor throw, the evaluation with the exception
+   path IS the total one: every theorem above applies to it *)
+Theorem C05_no_exception_same_as_total : forall (throws : example -> bool) (errf : example -> f64) (step : nat) (d : list example),
+  (forall e, In e d -> throws e = false) ->
+  sum_of_errors_impl_x throws errf step d =
+  (fst (sum_of_errors_impl errf step d), Some (snd (sum_of_errors_impl errf step d))).
+Proof. exact P_no_exception_same_as_total. Qed.
+Print Assumptions C05_no_exception_same_as_total.
+
+(* operator(): the evaluation throws exactly when some example makes the
+   functor throw; the examples before the first such one have been processed
+   (bumped iff wrong), that one and the following ones are untouched *)
+Theorem C05_exception_frame : forall (throws : example -> bool) (errf : example -> f64) (d : list example),
+  fst (sum_of_errors_impl_x throws errf 1 d) = frame_x throws (fun e => negb (issmall (errf e))) d /\
+  (snd (sum_of_errors_impl_x throws errf 1 d) = None <-> existsb throws d = true).
+Proof. exact P_exception_frame. Qed.
+Print Assumptions C05_exception_frame.
+
+(* any stride (fast()): nothing but difficulty increments of wrong examples,
+   and an exception has a culprit *)
+Theorem C05_exception_frame_any_step : forall (throws : example -> bool) (errf : example -> f64) (step : nat) (d : list example),
+  Forall2 (fun e e' => e' = e \/ (negb (issmall (errf e)) = true /\ e' = bump e))
+          d (fst (sum_of_errors_impl_x throws errf step d)) /\
+  (snd (sum_of_errors_impl_x throws errf step d) = None -> exists e, In e d /\ throws e = true).
+Proof. exact P_exception_frame_any_step. Qed.
+Print Assumptions C05_exception_frame_any_step.
+
+Example C05_exception_nonvacuous :
+  (* mae, identity program: wrong row, then a non numeric string, then a row that stays untouched *)
+  let out := fun i : list pout => match i with x :: _ => x | [] => PVoid end in
+  let d := [mk_example [PDouble two] (PDouble one) 1%N 0%N;
+            mk_example [PString [97%Z] None] (PDouble one) 2%N 0%N;
+            mk_example [PDouble two] (PDouble one) 3%N 0%N] in
+  let r := sum_of_errors_impl_x (err_throws out) (mae_err out) 1 d in
+  (map ex_diff (fst r), snd r) = ([2%N; 2%N; 3%N], None) /\
+  (* a numeric string behaves as its value: "1" parsed as 1.0 against target 1.0 *)
+  option_map (map F64.to_bits)
+    (snd (sum_of_errors_impl_x (err_throws out) (mae_err out) 1 [mk_example [PString [49%Z] (Some one)] (PDouble one) 0%N 0%N]))
+    = Some [F64.to_bits (F64.neg F64.zero)].
+Proof. split; vm_compute; reflexivity. Qed.
